@@ -15,6 +15,10 @@ let option_map f = function
 | Some a -> Some (f a)
 | None -> None
 
+type ('a, 'b) sum =
+| Inl of 'a
+| Inr of 'b
+
 (** val fst : ('a1 * 'a2) -> 'a1 **)
 
 let fst = function
@@ -58,6 +62,13 @@ module Coq__1 = struct
    | S p -> S (add p m)
 end
 include Coq__1
+
+(** val mul : nat -> nat -> nat **)
+
+let rec mul n0 m =
+  match n0 with
+  | O -> O
+  | S p -> add m (mul p m)
 
 (** val sub : nat -> nat -> nat **)
 
@@ -1328,6 +1339,12 @@ module N =
   | N0 -> N0
   | Npos p -> Npos (XO p)
 
+  (** val pred : n -> n **)
+
+  let pred = function
+  | N0 -> N0
+  | Npos p -> Coq_Pos.pred_N p
+
   (** val succ_pos : n -> positive **)
 
   let succ_pos = function
@@ -1400,6 +1417,13 @@ module N =
     match compare x y with
     | Lt -> true
     | _ -> false
+
+  (** val min : n -> n -> n **)
+
+  let min n0 n' =
+    match compare n0 n' with
+    | Gt -> n'
+    | _ -> n0
 
   (** val pow : n -> n -> n **)
 
@@ -1477,6 +1501,18 @@ module N =
     | Npos p -> (match m with
                  | N0 -> n0
                  | Npos q -> Coq_Pos.coq_lxor p q)
+
+  (** val to_nat : n -> nat **)
+
+  let to_nat = function
+  | N0 -> O
+  | Npos p -> Coq_Pos.to_nat p
+
+  (** val of_nat : nat -> n **)
+
+  let of_nat = function
+  | O -> N0
+  | S n' -> Npos (Coq_Pos.of_succ_nat n')
  end
 
 module Z =
@@ -1774,6 +1810,12 @@ let rec nth_error l = function
 let rec rev = function
 | [] -> []
 | x :: l' -> app (rev l') (x :: [])
+
+(** val concat : 'a1 list list -> 'a1 list **)
+
+let rec concat = function
+| [] -> []
+| x :: l0 -> app x (concat l0)
 
 (** val map : ('a1 -> 'a2) -> 'a1 list -> 'a2 list **)
 
@@ -3318,7 +3360,7 @@ let format_http_date secs =
     Z.modulo secs_of_day (Zpos (XO (XO (XO (XO (XI (XO (XO (XO (XO (XI (XI
       XH))))))))))))
   in
-  let min = Z.div rem (Zpos (XO (XO (XI (XI (XI XH)))))) in
+  let min0 = Z.div rem (Zpos (XO (XO (XI (XI (XI XH)))))) in
   let sec = Z.modulo rem (Zpos (XO (XO (XI (XI (XI XH)))))) in
   app
     (bs (String ((Ascii (false, false, true, false, false, true, true,
@@ -3349,7 +3391,7 @@ let format_http_date secs =
                       (app
                         (bs (String ((Ascii (false, true, false, true, true,
                           true, false, false)), EmptyString)))
-                        (app (write_2d min)
+                        (app (write_2d min0)
                           (app
                             (bs (String ((Ascii (false, true, false, true,
                               true, true, false, false)), EmptyString)))
@@ -5768,3 +5810,831 @@ let field_value raw =
 
 let sfield_pairs fs =
   map (fun f -> (f.s_name, (field_value f.s_raw))) fs
+
+(** val in_rng : byte -> n -> n -> bool **)
+
+let in_rng b lo0 hi =
+  (&&) (N.leb lo0 (b2n b)) (N.leb (b2n b) hi)
+
+(** val cont : byte -> bool **)
+
+let cont b =
+  in_rng b (Npos (XO (XO (XO (XO (XO (XO (XO XH)))))))) (Npos (XI (XI (XI (XI
+    (XI (XI (XO XH))))))))
+
+(** val utf8_valid : bytes -> bool **)
+
+let rec utf8_valid = function
+| [] -> true
+| b :: r ->
+  if N.ltb (b2n b) (Npos (XO (XO (XO (XO (XO (XO (XO XH))))))))
+  then utf8_valid r
+  else if in_rng b (Npos (XO (XI (XO (XO (XO (XO (XI XH)))))))) (Npos (XI (XI
+            (XI (XI (XI (XO (XI XH))))))))
+       then (match r with
+             | [] -> false
+             | c1 :: r' -> (&&) (cont c1) (utf8_valid r'))
+       else if in_rng b (Npos (XO (XO (XO (XO (XO (XI (XI XH)))))))) (Npos
+                 (XI (XI (XI (XI (XO (XI (XI XH))))))))
+            then (match r with
+                  | [] -> false
+                  | c1 :: l0 ->
+                    (match l0 with
+                     | [] -> false
+                     | c2 :: r' ->
+                       (&&)
+                         ((&&)
+                           (if N.eqb (b2n b) (Npos (XO (XO (XO (XO (XO (XI
+                                 (XI XH))))))))
+                            then in_rng c1 (Npos (XO (XO (XO (XO (XO (XI (XO
+                                   XH)))))))) (Npos (XI (XI (XI (XI (XI (XI
+                                   (XO XH))))))))
+                            else if N.eqb (b2n b) (Npos (XI (XO (XI (XI (XO
+                                      (XI (XI XH))))))))
+                                 then in_rng c1 (Npos (XO (XO (XO (XO (XO (XO
+                                        (XO XH)))))))) (Npos (XI (XI (XI (XI
+                                        (XI (XO (XO XH))))))))
+                                 else cont c1) (cont c2)) (utf8_valid r')))
+            else if in_rng b (Npos (XO (XO (XO (XO (XI (XI (XI XH))))))))
+                      (Npos (XO (XO (XI (XO (XI (XI (XI XH))))))))
+                 then (match r with
+                       | [] -> false
+                       | c1 :: l0 ->
+                         (match l0 with
+                          | [] -> false
+                          | c2 :: l1 ->
+                            (match l1 with
+                             | [] -> false
+                             | c3 :: r' ->
+                               (&&)
+                                 ((&&)
+                                   ((&&)
+                                     (if N.eqb (b2n b) (Npos (XO (XO (XO (XO
+                                           (XI (XI (XI XH))))))))
+                                      then in_rng c1 (Npos (XO (XO (XO (XO
+                                             (XI (XO (XO XH)))))))) (Npos (XI
+                                             (XI (XI (XI (XI (XI (XO
+                                             XH))))))))
+                                      else if N.eqb (b2n b) (Npos (XO (XO (XI
+                                                (XO (XI (XI (XI XH))))))))
+                                           then in_rng c1 (Npos (XO (XO (XO
+                                                  (XO (XO (XO (XO XH))))))))
+                                                  (Npos (XI (XI (XI (XI (XO
+                                                  (XO (XO XH))))))))
+                                           else cont c1) (cont c2)) (cont c3))
+                                 (utf8_valid r'))))
+                 else false
+
+(** val bUF_SIZE : n **)
+
+let bUF_SIZE =
+  Npos (XO (XO (XO (XO (XO (XO (XO (XO (XO (XO (XO (XO XH))))))))))))
+
+(** val firstnN : n -> bytes -> bytes **)
+
+let rec firstnN k = function
+| [] -> []
+| x :: r -> if N.eqb k N0 then [] else x :: (firstnN (N.pred k) r)
+
+(** val skipnN : n -> bytes -> bytes **)
+
+let rec skipnN k l = match l with
+| [] -> []
+| _ :: r -> if N.eqb k N0 then l else skipnN (N.pred k) r
+
+(** val lenN : bytes -> n **)
+
+let lenN l =
+  N.of_nat (length l)
+
+type src = { bbuf : bytes; lo : bytes; segs0 : bytes list; sfuel : nat }
+
+(** val mk_src : bytes -> bytes list -> src **)
+
+let mk_src leftover stream =
+  { bbuf = []; lo = leftover; segs0 = stream; sfuel =
+    (add
+      (mul (S (S (S (S O)))) (S
+        (add (length leftover) (length (concat stream))))) (S (S (S (S (S (S
+      (S (S O))))))))) }
+
+(** val src_rest : src -> bytes **)
+
+let src_rest s =
+  app s.bbuf (app s.lo (concat s.segs0))
+
+(** val stream_read : n -> bytes list -> bytes * bytes list **)
+
+let rec stream_read k = function
+| [] -> ([], [])
+| g :: rest ->
+  (match g with
+   | [] -> stream_read k rest
+   | _ :: _ ->
+     let out = firstnN k g in
+     (match skipnN k g with
+      | [] -> (out, rest)
+      | b :: l -> (out, ((b :: l) :: rest))))
+
+(** val inner_read :
+    n -> bytes -> bytes list -> (bytes * bytes) * bytes list **)
+
+let inner_read k l sg =
+  match l with
+  | [] -> let (out, sg') = stream_read k sg in ((out, []), sg')
+  | _ :: _ -> (((firstnN k l), (skipnN k l)), sg)
+
+(** val fill_buf : src -> src **)
+
+let fill_buf s =
+  match s.bbuf with
+  | [] ->
+    let (p, sg') = inner_read bUF_SIZE s.lo s.segs0 in
+    let (out, l') = p in { bbuf = out; lo = l'; segs0 = sg'; sfuel = s.sfuel }
+  | _ :: _ -> s
+
+(** val consume : n -> src -> src **)
+
+let consume n0 s =
+  { bbuf = (skipnN n0 s.bbuf); lo = s.lo; segs0 = s.segs0; sfuel = s.sfuel }
+
+(** val buf_read : n -> src -> bytes * src **)
+
+let buf_read k s =
+  match s.bbuf with
+  | [] ->
+    if N.leb bUF_SIZE k
+    then let (p, sg') = inner_read k s.lo s.segs0 in
+         let (out, l') = p in
+         (out, { bbuf = []; lo = l'; segs0 = sg'; sfuel = s.sfuel })
+    else let s' = fill_buf s in ((firstnN k s'.bbuf), (consume k s'))
+  | _ :: _ -> ((firstnN k s.bbuf), (consume k s))
+
+(** val read_exact_loop : nat -> n -> src -> bytes -> (bytes * src) option **)
+
+let rec read_exact_loop fuel n0 s acc =
+  if N.eqb n0 N0
+  then Some (acc, s)
+  else (match fuel with
+        | O -> None
+        | S fuel' ->
+          let (out, s') = buf_read n0 s in
+          (match out with
+           | [] -> None
+           | _ :: _ ->
+             read_exact_loop fuel' (N.sub n0 (lenN out)) s' (app acc out)))
+
+(** val read_exact : n -> src -> (bytes * src) option **)
+
+let read_exact n0 s =
+  if N.leb n0 (lenN (firstnN n0 s.bbuf))
+  then Some ((firstnN n0 s.bbuf), (consume n0 s))
+  else read_exact_loop (N.to_nat n0) n0 s []
+
+(** val read_until_lf : nat -> src -> bytes -> bytes * src **)
+
+let rec read_until_lf fuel s acc =
+  match fuel with
+  | O -> (acc, s)
+  | S fuel' ->
+    let s1 = fill_buf s in
+    let avail = s1.bbuf in
+    (match find_index (eqb0 X0a) avail with
+     | Some i ->
+       ((app acc (firstn (S i) avail)), (consume (N.of_nat (S i)) s1))
+     | None ->
+       (match avail with
+        | [] -> (acc, s1)
+        | _ :: _ ->
+          read_until_lf fuel' (consume (lenN avail) s1) (app acc avail)))
+
+type ioerr =
+| EUnexpectedEof
+| EInvalidData
+
+(** val read_line : src -> (bytes, ioerr) sum * src **)
+
+let read_line s =
+  let (line, s') = read_until_lf s.sfuel s [] in
+  if utf8_valid line then ((Inl line), s') else ((Inr EInvalidData), s')
+
+type fixed = { f_src : src; f_remaining : n }
+
+type 's rres0 =
+| ROk of bytes * 's
+| RErr of ioerr * 's
+
+(** val fixed_read : n -> fixed -> fixed rres0 **)
+
+let fixed_read k r =
+  if N.eqb r.f_remaining N0
+  then ROk ([], r)
+  else let to_read = N.min r.f_remaining k in
+       let (out, s') = buf_read to_read r.f_src in
+       (match out with
+        | [] ->
+          RErr (EUnexpectedEof, { f_src = s'; f_remaining = r.f_remaining })
+        | _ :: _ ->
+          ROk (out, { f_src = s'; f_remaining =
+            (N.sub r.f_remaining (lenN out)) }))
+
+(** val fixed_fill_buf : fixed -> fixed rres0 **)
+
+let fixed_fill_buf r =
+  if N.eqb r.f_remaining N0
+  then ROk ([], r)
+  else let s' = fill_buf r.f_src in
+       (match s'.bbuf with
+        | [] ->
+          RErr (EUnexpectedEof, { f_src = s'; f_remaining = r.f_remaining })
+        | b1 :: l ->
+          ROk ((firstnN r.f_remaining (b1 :: l)), { f_src = s'; f_remaining =
+            r.f_remaining }))
+
+(** val fixed_consume : n -> fixed -> fixed **)
+
+let fixed_consume amt r =
+  { f_src = (consume amt r.f_src); f_remaining = (N.sub r.f_remaining amt) }
+
+type cstate =
+| CSize
+| CData
+| CCrlf
+| CTrailer
+| CDone
+
+type chunked0 = { c_src : src; c_state : cstate; c_remaining : n }
+
+(** val is_hexdigit : byte -> bool **)
+
+let is_hexdigit b =
+  (||)
+    ((||) (is_digit b)
+      ((&&) (N.leb (Npos (XI (XO (XO (XO (XO (XO XH))))))) (b2n b))
+        (N.leb (b2n b) (Npos (XO (XI (XI (XO (XO (XO XH))))))))))
+    ((&&) (N.leb (Npos (XI (XO (XO (XO (XO (XI XH))))))) (b2n b))
+      (N.leb (b2n b) (Npos (XO (XI (XI (XO (XO (XI XH)))))))))
+
+(** val hexval : byte -> n **)
+
+let hexval b =
+  if is_digit b
+  then N.sub (b2n b) (Npos (XO (XO (XO (XO (XI XH))))))
+  else if N.leb (b2n b) (Npos (XO (XI (XI (XO (XO (XO XH)))))))
+       then N.sub (b2n b) (Npos (XI (XI (XI (XO (XI XH))))))
+       else N.sub (b2n b) (Npos (XI (XI (XI (XO (XI (XO XH)))))))
+
+(** val uSIZE_MAX : n **)
+
+let uSIZE_MAX =
+  Npos (XI (XI (XI (XI (XI (XI (XI (XI (XI (XI (XI (XI (XI (XI (XI (XI (XI
+    (XI (XI (XI (XI (XI (XI (XI (XI (XI (XI (XI (XI (XI (XI (XI (XI (XI (XI
+    (XI (XI (XI (XI (XI (XI (XI (XI (XI (XI (XI (XI (XI (XI (XI (XI (XI (XI
+    (XI (XI (XI (XI (XI (XI (XI (XI (XI (XI
+    XH)))))))))))))))))))))))))))))))))))))))))))))))))))))))))))))))
+
+(** val parse_hex : n -> bytes -> n option **)
+
+let rec parse_hex acc = function
+| [] -> Some acc
+| b :: r ->
+  let acc' = N.add (N.mul acc (Npos (XO (XO (XO (XO XH)))))) (hexval b) in
+  if N.leb acc' uSIZE_MAX then parse_hex acc' r else None
+
+(** val strip_suffix_byte : byte -> bytes -> bytes option **)
+
+let strip_suffix_byte c l =
+  match rev l with
+  | [] -> None
+  | x :: r -> if eqb0 x c then Some (rev r) else None
+
+(** val read_chunk_size : chunked0 -> chunked0 rres0 **)
+
+let read_chunk_size c =
+  let (r, s') = read_line c.c_src in
+  let st = fun e -> RErr (e, { c_src = s'; c_state = c.c_state; c_remaining =
+    c.c_remaining })
+  in
+  (match r with
+   | Inl line ->
+     (match line with
+      | [] -> st EUnexpectedEof
+      | _ :: _ ->
+        (match strip_suffix_byte X0a line with
+         | Some l1 ->
+           let l2 =
+             match strip_suffix_byte X0d l1 with
+             | Some x -> x
+             | None -> l1
+           in
+           let hex = match split_on X3b l2 with
+                     | [] -> []
+                     | h :: _ -> h in
+           (match hex with
+            | [] -> st EInvalidData
+            | _ :: _ ->
+              if forallb is_hexdigit hex
+              then (match parse_hex N0 hex with
+                    | Some n0 ->
+                      ROk ([], { c_src = s'; c_state =
+                        (if N.eqb n0 N0 then CTrailer else CData);
+                        c_remaining = n0 })
+                    | None -> st EInvalidData)
+              else st EInvalidData)
+         | None -> st EUnexpectedEof))
+   | Inr e -> st e)
+
+(** val trailer_loop : nat -> src -> ioerr option * src **)
+
+let rec trailer_loop fuel s =
+  match fuel with
+  | O -> ((Some EUnexpectedEof), s)
+  | S fuel' ->
+    let (r, s') = read_line s in
+    (match r with
+     | Inl line ->
+       (match line with
+        | [] -> ((Some EUnexpectedEof), s')
+        | _ :: _ ->
+          if (||) (bytes_eqb line (X0d :: (X0a :: [])))
+               (bytes_eqb line (X0a :: []))
+          then (None, s')
+          else trailer_loop fuel' s')
+     | Inr e -> ((Some e), s'))
+
+(** val advance : nat -> chunked0 -> chunked0 rres0 **)
+
+let rec advance fuel c =
+  match fuel with
+  | O -> RErr (EInvalidData, c)
+  | S fuel' ->
+    (match c.c_state with
+     | CSize ->
+       (match read_chunk_size c with
+        | ROk (_, c') -> advance fuel' c'
+        | RErr (e0, st) -> RErr (e0, st))
+     | CData ->
+       if N.eqb c.c_remaining N0
+       then advance fuel' { c_src = c.c_src; c_state = CCrlf; c_remaining =
+              N0 }
+       else ROk ([], c)
+     | CCrlf ->
+       (match read_exact (Npos (XO XH)) c.c_src with
+        | Some p ->
+          let (crlf, s') = p in
+          if bytes_eqb crlf (X0d :: (X0a :: []))
+          then advance fuel' { c_src = s'; c_state = CSize; c_remaining =
+                 c.c_remaining }
+          else RErr (EInvalidData, { c_src = s'; c_state = CCrlf;
+                 c_remaining = c.c_remaining })
+        | None -> RErr (EUnexpectedEof, c))
+     | CTrailer ->
+       let (o, s') = trailer_loop c.c_src.sfuel c.c_src in
+       (match o with
+        | Some e ->
+          RErr (e, { c_src = s'; c_state = CTrailer; c_remaining =
+            c.c_remaining })
+        | None ->
+          advance fuel' { c_src = s'; c_state = CDone; c_remaining =
+            c.c_remaining })
+     | CDone -> ROk ([], c))
+
+(** val adv_fuel : chunked0 -> nat **)
+
+let adv_fuel c =
+  c.c_src.sfuel
+
+(** val chunked_read_loop :
+    nat -> n -> chunked0 -> bytes -> chunked0 rres0 **)
+
+let rec chunked_read_loop fuel k c written =
+  match fuel with
+  | O -> ROk (written, c)
+  | S fuel' ->
+    (match advance (adv_fuel c) c with
+     | ROk (_, c1) ->
+       (match c1.c_state with
+        | CDone -> ROk (written, c1)
+        | _ ->
+          if N.eqb k N0
+          then ROk (written, c1)
+          else let to_read = N.min c1.c_remaining k in
+               let (out, s') = buf_read to_read c1.c_src in
+               (match out with
+                | [] ->
+                  RErr (EUnexpectedEof, { c_src = s'; c_state = c1.c_state;
+                    c_remaining = c1.c_remaining })
+                | _ :: _ ->
+                  let n0 = lenN out in
+                  let c2 = { c_src = s'; c_state = c1.c_state; c_remaining =
+                    (N.sub c1.c_remaining n0) }
+                  in
+                  if (||) (N.eqb c2.c_remaining N0) (N.eqb (N.sub k n0) N0)
+                  then ROk ((app written out), c2)
+                  else chunked_read_loop fuel' (N.sub k n0) c2
+                         (app written out)))
+     | RErr (e, c') -> RErr (e, c'))
+
+(** val chunked_read : n -> chunked0 -> chunked0 rres0 **)
+
+let chunked_read k c =
+  chunked_read_loop c.c_src.sfuel k c []
+
+(** val chunked_fill_buf : chunked0 -> chunked0 rres0 **)
+
+let chunked_fill_buf c =
+  match advance (adv_fuel c) c with
+  | ROk (_, c1) ->
+    (match c1.c_state with
+     | CDone -> ROk ([], c1)
+     | _ ->
+       let s' = fill_buf c1.c_src in
+       let c2 = { c_src = s'; c_state = c1.c_state; c_remaining =
+         c1.c_remaining }
+       in
+       (match s'.bbuf with
+        | [] -> RErr (EUnexpectedEof, c2)
+        | b1 :: l -> ROk ((firstnN c1.c_remaining (b1 :: l)), c2)))
+  | RErr (e, c') -> RErr (e, c')
+
+(** val chunked_consume : n -> chunked0 -> chunked0 **)
+
+let chunked_consume amt c =
+  { c_src = (consume amt c.c_src); c_state = c.c_state; c_remaining =
+    (N.sub c.c_remaining amt) }
+
+type body =
+| BFixed of fixed
+| BChunked of chunked0
+| BEof of src
+| BEmpty of src
+
+(** val new_fixed : bytes -> bytes list -> n -> body **)
+
+let new_fixed leftover stream len =
+  BFixed { f_src = (mk_src leftover stream); f_remaining = len }
+
+(** val new_chunked : bytes -> bytes list -> body **)
+
+let new_chunked leftover stream =
+  BChunked { c_src = (mk_src leftover stream); c_state = CSize; c_remaining =
+    N0 }
+
+(** val new_eof : bytes -> bytes list -> body **)
+
+let new_eof leftover stream =
+  BEof (mk_src leftover stream)
+
+(** val new_empty : bytes -> bytes list -> body **)
+
+let new_empty leftover stream =
+  BEmpty (mk_src leftover stream)
+
+(** val lift : ('a1 -> body) -> 'a1 rres0 -> body rres0 **)
+
+let lift f = function
+| ROk (o, s) -> ROk (o, (f s))
+| RErr (e, s) -> RErr (e, (f s))
+
+(** val body_read : n -> body -> body rres0 **)
+
+let body_read k b = match b with
+| BFixed r -> lift (fun x -> BFixed x) (fixed_read k r)
+| BChunked c -> lift (fun x -> BChunked x) (chunked_read k c)
+| BEof s -> let (out, s') = buf_read k s in ROk (out, (BEof s'))
+| BEmpty _ -> ROk ([], b)
+
+(** val body_fill_buf : body -> body rres0 **)
+
+let body_fill_buf b = match b with
+| BFixed r -> lift (fun x -> BFixed x) (fixed_fill_buf r)
+| BChunked c -> lift (fun x -> BChunked x) (chunked_fill_buf c)
+| BEof s -> let s' = fill_buf s in ROk (s'.bbuf, (BEof s'))
+| BEmpty _ -> ROk ([], b)
+
+(** val body_consume : n -> body -> body **)
+
+let body_consume amt b = match b with
+| BFixed r -> BFixed (fixed_consume amt r)
+| BChunked c -> BChunked (chunked_consume amt c)
+| BEof s -> BEof (consume amt s)
+| BEmpty _ -> b
+
+(** val body_src : body -> src **)
+
+let body_src = function
+| BFixed r -> r.f_src
+| BChunked c -> c.c_src
+| BEof s -> s
+| BEmpty s -> s
+
+type outcome =
+| AtEof
+| Failed of ioerr
+| More
+
+(** val read_all : body -> n list -> bytes -> (bytes * outcome) * body **)
+
+let rec read_all b sizes acc =
+  match sizes with
+  | [] -> ((acc, More), b)
+  | k :: rest ->
+    (match body_read k b with
+     | ROk (out, b') ->
+       (match out with
+        | [] -> ((acc, AtEof), b')
+        | _ :: _ -> read_all b' rest (app acc out))
+     | RErr (e, b') -> ((acc, (Failed e)), b'))
+
+(** val bufread_all : body -> n list -> bytes -> (bytes * outcome) * body **)
+
+let rec bufread_all b amts acc =
+  match amts with
+  | [] -> ((acc, More), b)
+  | a :: rest ->
+    (match body_fill_buf b with
+     | ROk (avail, b') ->
+       (match avail with
+        | [] -> ((acc, AtEof), b')
+        | _ :: _ ->
+          let got = firstnN a avail in
+          bufread_all (body_consume (lenN got) b') rest (app acc got))
+     | RErr (e, b') -> ((acc, (Failed e)), b'))
+
+(** val drain : nat -> body -> body **)
+
+let rec drain fuel b =
+  match fuel with
+  | O -> b
+  | S fuel' ->
+    (match b with
+     | BFixed _ ->
+       (match body_read (Npos (XO (XO (XO (XO (XO (XO (XO (XO (XO (XO
+                XH))))))))))) b with
+        | ROk (out, b') ->
+          (match out with
+           | [] -> b'
+           | _ :: _ -> drain fuel' b')
+        | RErr (_, b') -> b')
+     | BChunked _ ->
+       (match body_read (Npos (XO (XO (XO (XO (XO (XO (XO (XO (XO (XO
+                XH))))))))))) b with
+        | ROk (out, b') ->
+          (match out with
+           | [] -> b'
+           | _ :: _ -> drain fuel' b')
+        | RErr (_, b') -> b')
+     | _ -> b)
+
+(** val hexdig : byte -> bool **)
+
+let hexdig = function
+| X30 -> true
+| X31 -> true
+| X32 -> true
+| X33 -> true
+| X34 -> true
+| X35 -> true
+| X36 -> true
+| X37 -> true
+| X38 -> true
+| X39 -> true
+| X41 -> true
+| X42 -> true
+| X43 -> true
+| X44 -> true
+| X45 -> true
+| X46 -> true
+| X61 -> true
+| X62 -> true
+| X63 -> true
+| X64 -> true
+| X65 -> true
+| X66 -> true
+| _ -> false
+
+(** val hexdig_val : byte -> n **)
+
+let hexdig_val = function
+| X31 -> Npos XH
+| X32 -> Npos (XO XH)
+| X33 -> Npos (XI XH)
+| X34 -> Npos (XO (XO XH))
+| X35 -> Npos (XI (XO XH))
+| X36 -> Npos (XO (XI XH))
+| X37 -> Npos (XI (XI XH))
+| X38 -> Npos (XO (XO (XO XH)))
+| X39 -> Npos (XI (XO (XO XH)))
+| X41 -> Npos (XO (XI (XO XH)))
+| X42 -> Npos (XI (XI (XO XH)))
+| X43 -> Npos (XO (XO (XI XH)))
+| X44 -> Npos (XI (XO (XI XH)))
+| X45 -> Npos (XO (XI (XI XH)))
+| X46 -> Npos (XI (XI (XI XH)))
+| X61 -> Npos (XO (XI (XO XH)))
+| X62 -> Npos (XI (XI (XO XH)))
+| X63 -> Npos (XO (XO (XI XH)))
+| X64 -> Npos (XI (XO (XI XH)))
+| X65 -> Npos (XO (XI (XI XH)))
+| X66 -> Npos (XI (XI (XI XH)))
+| _ -> N0
+
+(** val hex_value : bytes -> n **)
+
+let hex_value l =
+  fold_left (fun a b ->
+    N.add (N.mul a (Npos (XO (XO (XO (XO XH)))))) (hexdig_val b)) l N0
+
+(** val text_byte : byte -> bool **)
+
+let text_byte b =
+  (||) (is_vchar b) (is_ows b)
+
+(** val wf_ext : bytes -> bool **)
+
+let wf_ext = function
+| [] -> true
+| b :: r -> (match b with
+             | X3b -> forallb text_byte r
+             | _ -> false)
+
+type why =
+| Truncated
+| BadSize
+| BadChunkEnd
+
+type dres =
+| Valid of bytes * bytes
+| Invalid of why
+| Unspecified
+
+(** val to_lf : bytes -> (bytes * bytes) option **)
+
+let rec to_lf = function
+| [] -> None
+| b :: r ->
+  if eqb0 b X0a
+  then Some ([], r)
+  else (match to_lf r with
+        | Some p -> let (x, y) = p in Some ((b :: x), y)
+        | None -> None)
+
+(** val line_crlf : bytes -> (bytes option * bytes) option **)
+
+let line_crlf l =
+  match to_lf l with
+  | Some p ->
+    let (before, rest) = p in
+    (match rev before with
+     | [] -> Some (None, rest)
+     | b :: rb ->
+       (match b with
+        | X0d -> Some ((Some (rev rb)), rest)
+        | _ -> Some (None, rest)))
+  | None -> None
+
+(** val take_while : (byte -> bool) -> bytes -> bytes * bytes **)
+
+let rec take_while p l = match l with
+| [] -> ([], [])
+| b :: r ->
+  if p b then let (x, y) = take_while p r in ((b :: x), y) else ([], l)
+
+(** val dec_trailers : nat -> bytes -> bytes option option **)
+
+let rec dec_trailers fuel l =
+  match fuel with
+  | O -> None
+  | S fuel' ->
+    (match line_crlf l with
+     | Some p ->
+       let (o, rest) = p in
+       (match o with
+        | Some t ->
+          (match t with
+           | [] -> Some (Some rest)
+           | _ :: _ ->
+             if forallb text_byte t
+             then dec_trailers fuel' rest
+             else Some None)
+        | None -> Some None)
+     | None -> None)
+
+(** val take_n : n -> bytes -> (bytes * bytes) option **)
+
+let rec take_n n0 l =
+  if N.eqb n0 N0
+  then Some ([], l)
+  else (match l with
+        | [] -> None
+        | b :: r ->
+          (match take_n (N.pred n0) r with
+           | Some p -> let (x, y) = p in Some ((b :: x), y)
+           | None -> None))
+
+(** val dec_chunks : nat -> bytes -> bytes -> dres **)
+
+let rec dec_chunks fuel l acc =
+  match fuel with
+  | O -> Invalid Truncated
+  | S fuel' ->
+    (match line_crlf l with
+     | Some p ->
+       let (o, rest) = p in
+       (match o with
+        | Some line ->
+          let (sz, ext) = take_while hexdig line in
+          (match sz with
+           | [] -> Invalid BadSize
+           | _ :: _ ->
+             (match ext with
+              | [] ->
+                if negb (wf_ext ext)
+                then Unspecified
+                else if negb
+                          (N.ltb (hex_value sz)
+                            (N.pow (Npos (XO XH)) (Npos (XO (XO (XO (XO (XO
+                              (XO XH)))))))))
+                     then Invalid BadSize
+                     else if N.eqb (hex_value sz) N0
+                          then (match dec_trailers (S (length rest)) rest with
+                                | Some o0 ->
+                                  (match o0 with
+                                   | Some rest' -> Valid (acc, rest')
+                                   | None -> Unspecified)
+                                | None -> Invalid Truncated)
+                          else (match take_n (hex_value sz) rest with
+                                | Some p0 ->
+                                  let (data, after) = p0 in
+                                  (match after with
+                                   | [] -> Invalid Truncated
+                                   | b :: l0 ->
+                                     (match b with
+                                      | X0d ->
+                                        (match l0 with
+                                         | [] -> Invalid Truncated
+                                         | b1 :: rest' ->
+                                           (match b1 with
+                                            | X0a ->
+                                              dec_chunks fuel' rest'
+                                                (app acc data)
+                                            | _ -> Invalid BadChunkEnd))
+                                      | _ -> Invalid BadChunkEnd))
+                                | None -> Invalid Truncated)
+              | b :: _ ->
+                (match b with
+                 | X3b ->
+                   if negb (wf_ext ext)
+                   then Unspecified
+                   else if negb
+                             (N.ltb (hex_value sz)
+                               (N.pow (Npos (XO XH)) (Npos (XO (XO (XO (XO
+                                 (XO (XO XH)))))))))
+                        then Invalid BadSize
+                        else if N.eqb (hex_value sz) N0
+                             then (match dec_trailers (S (length rest)) rest with
+                                   | Some o0 ->
+                                     (match o0 with
+                                      | Some rest' -> Valid (acc, rest')
+                                      | None -> Unspecified)
+                                   | None -> Invalid Truncated)
+                             else (match take_n (hex_value sz) rest with
+                                   | Some p0 ->
+                                     let (data, after) = p0 in
+                                     (match after with
+                                      | [] -> Invalid Truncated
+                                      | b1 :: l0 ->
+                                        (match b1 with
+                                         | X0d ->
+                                           (match l0 with
+                                            | [] -> Invalid Truncated
+                                            | b2 :: rest' ->
+                                              (match b2 with
+                                               | X0a ->
+                                                 dec_chunks fuel' rest'
+                                                   (app acc data)
+                                               | _ -> Invalid BadChunkEnd))
+                                         | _ -> Invalid BadChunkEnd))
+                                   | None -> Invalid Truncated)
+                 | _ -> Invalid BadSize)))
+        | None -> Unspecified)
+     | None ->
+       let (_, after) = take_while hexdig l in
+       (match after with
+        | [] -> Invalid Truncated
+        | b :: _ ->
+          if (||) (eqb0 b X3b) (eqb0 b X0d)
+          then Invalid Truncated
+          else Invalid BadSize))
+
+(** val spec_decode : bytes -> dres **)
+
+let spec_decode l =
+  dec_chunks (S (length l)) l []
+
+(** val spec_fixed : n -> bytes -> dres **)
+
+let spec_fixed n0 l =
+  match take_n n0 l with
+  | Some p0 -> let (p, rest) = p0 in Valid (p, rest)
+  | None -> Invalid Truncated
